@@ -1,0 +1,17 @@
+//go:build verif
+
+// Contracts for govc (see /verif/DESIGN.md). Comment-only: no executable code with or without the tag.
+
+package main
+
+//@ import net "net"
+
+// ---------------- C17: client addresses never reach logs/statistics through error texts ----------------
+
+// "whatever error the network stack returns, the text that reaches a logger or the tunnel summary is address-free"
+//@ func generalizeErr(err error) error
+//@   requires netStackErr(err)
+//@   requires addrFree(errConnReset) && addrFree(errConnRefused) && addrFree(errConnAborted) && addrFree(errUnreachable) && addrFree(errConnTimeout) && addrFree(errNetOp) && addrFree(errConnClosed)
+//@   ensures err == nil ==> result == nil
+//@   ensures @C17: result == nil || addrFree(result)
+//@   assigns nothing
